@@ -25,6 +25,7 @@ type Opts struct {
 	Goroutine bool // allow the go-statement form
 	Native    bool // the program is also compared with a native build: no dependence on map iteration order, no range over an array that the body mutates
 	Goexit    bool // scenario functions run in their own goroutine, so runtime.Goexit may be used
+	Where     bool // emit y.Where(id) markers and record their Go lines (C19)
 	Scenarios bool // emit funcs.go + main_s.go (scenarios one after the other) + main_m.go (all concurrently, build tag multi)
 	Weights   map[string]int
 }
@@ -34,7 +35,8 @@ type Program struct {
 	Atoms    int
 	Features map[string]int
 	Clean    bool
-	Units    []Unit // deletable statements of main.go (for minimisation), outermost first
+	Units    []Unit      // deletable statements of main.go (for minimisation), outermost first
+	Wheres   map[int]int // marker id -> 1-based line of main.go holding the y.Where(id) call
 }
 
 // Unit is a statement of main.go given by its line range [From,To) and the statement form that produced it.
@@ -62,6 +64,7 @@ type gen struct {
 	tmp      int
 	lines    int
 	units    []Unit
+	wheres   map[int]int
 	inDefer  int
 	noDyn    int
 	noStatic int
@@ -343,6 +346,7 @@ func (g *gen) stmt() {
 		{"pointer", 3, true, g.sPointer},
 		{"early", 1, g.depth > 1 && g.inDefer == 0 && g.inLoop > 0, g.sEarlyReturn},
 		{"goexit", 2, g.o.Goexit && g.inDefer == 0, g.sGoexit},
+		{"where", 8, g.o.Where, g.sWhere},
 		{"nestedpanic", 3, g.o.Unwind && g.inLoop == 0 && g.inDefer == 0, g.sNestedPanic},
 		{"repanic", 3, g.o.Unwind && g.panicky && g.inLoop == 0 && g.inDefer == 0, g.sRepanic},
 		{"indirectrecover", 2, g.o.Unwind && g.inLoop == 0 && g.inDefer == 0, g.sIndirectRecover},
@@ -752,6 +756,12 @@ func (g *gen) restricted(fn func()) {
 		g.f("defer:atom-while-maybe-panicking")
 	}
 	fn()
+}
+
+func (g *gen) sWhere() {
+	id := len(g.wheres) + 1
+	g.wheres[id] = g.lines + 1
+	g.line("y.Where(%d)", id)
 }
 
 func (g *gen) sGoexit() {
@@ -1220,7 +1230,7 @@ func has(s, sub string) bool {
 
 // Generate draws one program.
 func Generate(r *rng.R, o Opts) *Program {
-	g := &gen{r: r, o: o, feat: map[string]int{}}
+	g := &gen{r: r, o: o, feat: map[string]int{}, wheres: map[int]int{}}
 	g.b.WriteString(prelude)
 	g.lines = strings.Count(prelude, "\n")
 	for i := 0; i < o.Funcs; i++ {
@@ -1251,7 +1261,7 @@ func Generate(r *rng.R, o Opts) *Program {
 		}
 		return g.units[a].To-g.units[a].From > g.units[b].To-g.units[b].From
 	})
-	return &Program{Files: map[string]string{"main.go": g.b.String(), "go.mod": "module seqprog\n\ngo 1.20\n"}, Atoms: g.atom, Features: g.feat, Clean: o.Clean, Units: g.units}
+	return &Program{Files: map[string]string{"main.go": g.b.String(), "go.mod": "module seqprog\n\ngo 1.20\n"}, Atoms: g.atom, Features: g.feat, Clean: o.Clean, Units: g.units, Wheres: g.wheres}
 }
 
 func (p *Program) FeatureList() []string {
@@ -1319,5 +1329,5 @@ func main() {
 }
 `, o.Funcs, o.Funcs, o.Funcs)
 	return &Program{Files: map[string]string{"main.go": g.b.String(), "main_s.go": mainS, "main_m.go": mainM, "go.mod": "module seqprog\n\ngo 1.20\n"},
-		Atoms: g.atom, Features: g.feat, Clean: o.Clean, Units: g.units}
+		Atoms: g.atom, Features: g.feat, Clean: o.Clean, Units: g.units, Wheres: g.wheres}
 }
